@@ -6,7 +6,9 @@ package main
 // survive a reconnect — is observed here and judged by a predicate with coarse windows (ocaml/session/s_clock.ml).
 //
 //	input   (clock KIND H CONNS)      KIND = silent | alive | late ;  H = HeartBtInt in seconds ; CONNS = connections
-//	observed ((conn REPLY ((MS TYPE) ...) CLOSEDAT LOGOUTS TRAT ANSWERAT HANGUPAT) ...)   times in ms since the Logon reply
+//	observed ((conn REPLY ((MS TYPE) ...) CLOSEDAT LOGOUTS TRAT ANSWERAT HANGUPAT) ... (timeline (MS WHAT ...) ...))
+//	         conn: times in ms since the Logon reply; timeline: everything in order with ms since the case began
+//	         (connect | push tTYPE SEQ TESTREQID | out tTYPE | closed | hangup) — input and output of the timed model
 //	  silent: the peer says nothing after its Logon
 //	  alive : the peer sends a Heartbeat every 0.4 H for 3 H, then hangs up
 //	  slowlogon: the session is an INITIATOR; the peer answers its Logon 1.15 H late, then stays alive for 3 H (times since
@@ -86,13 +88,27 @@ func runClockCase(kind string, hSec, conns int) Sx {
 	defer v.Stop()
 	H := time.Duration(hSec) * time.Second
 	peerSeq := 1
+	origin := time.Now()
+	var tlMu sync.Mutex
+	timeline := List{} // everything that happened, with its time in ms since the case began: the timed model's input and output
+	note := func(at time.Time, what ...Sx) {
+		tlMu.Lock()
+		timeline = append(timeline, append(List{Int(int(at.Sub(origin) / time.Millisecond))}, what...))
+		tlMu.Unlock()
+	}
 	push := func(typ, extra string) {
+		tr := None()
+		if extra == "112=TEST\x01" {
+			tr = Some(Str("TEST"))
+		}
+		note(time.Now(), Sym("push"), Sym("t"+typ), Int(peerSeq), tr)
 		v.Push(clockFrame(peer, us, typ, peerSeq, extra))
 		peerSeq++
 	}
 	obs := List{}
 	for k := 0; k < conns; k++ {
 		out, err := v.Connect()
+		note(time.Now(), Sym("connect"))
 		if err != nil {
 			obs = append(obs, L(Sym("conn"), Bool(false), List{}, Int(-1), Int(int(atomic.LoadInt32(&app.logouts))), Int(-1), Int(-1), Int(-1)))
 			break
@@ -113,6 +129,7 @@ func runClockCase(kind string, hSec, conns int) Sx {
 				}
 				if typeOf(b) == "A" {
 					reply, t0 = true, time.Now()
+					note(t0, Sym("out"), Sym("tA"))
 					break waitReply
 				}
 			case <-deadline:
@@ -133,6 +150,7 @@ func runClockCase(kind string, hSec, conns int) Sx {
 			for b := range out {
 				now := time.Now()
 				typ := typeOf(b)
+				note(now, Sym("out"), Sym("t"+typ))
 				mu.Lock()
 				events = append(events, L(Int(ms(now)), Sym("t"+typ)))
 				if typ == "1" && trAt < 0 {
@@ -144,6 +162,7 @@ func runClockCase(kind string, hSec, conns int) Sx {
 				}
 				mu.Unlock()
 			}
+			note(time.Now(), Sym("closed"))
 			mu.Lock()
 			closedAt = ms(time.Now())
 			mu.Unlock()
@@ -166,6 +185,7 @@ func runClockCase(kind string, hSec, conns int) Sx {
 		}
 		hangup := func() {
 			if !isClosed() {
+				note(time.Now(), Sym("hangup"))
 				mu.Lock()
 				hangupAt = ms(time.Now())
 				mu.Unlock()
@@ -223,7 +243,9 @@ func runClockCase(kind string, hSec, conns int) Sx {
 			break // the session never released the connection: nothing more can be said
 		}
 	}
-	return obs
+	tlMu.Lock()
+	defer tlMu.Unlock()
+	return append(obs, append(List{Sym("timeline")}, timeline...))
 }
 
 func runClock(in Sx) Sx {
